@@ -35,6 +35,8 @@ class World:
         self.cur = "main"
         self.tainted = False      # a destructive / unsupported op has happened
         self.stash_depth = 0
+        self.pending_ai = set()   # files with uncommitted AI checkpoints
+        self.stale = set()        # files whose content was discarded while the working log kept an AI entry
 
     # ------------------------------------------------------------ primitives (recorded)
     def _rec(self, step):
@@ -126,6 +128,8 @@ class World:
         self.write(path, "".join(l + "\n" for l in ls))
         if actor != "H":
             self.cp_ai(actor, [path])
+            self.pending_ai.add(path)
+            self.stale.discard(path)
         self.trace.append(("edit", actor, path, kind))
         return path
 
@@ -133,6 +137,8 @@ class World:
         self.realgit("add", "-A")
         rc, _, _ = self.git("commit", "-q", "-m", msg or f"c{len(self.trace)}")
         self.trace.append(("commit", rc))
+        if rc == 0:
+            self.pending_ai.clear()
         return rc
 
     def op_commit_partial(self):
@@ -143,6 +149,8 @@ class World:
         pick = self.r.shuffle(changed)[:self.r.range(1, len(changed) - 1)]
         self.realgit("add", "--", *pick)
         rc, _, _ = self.git("commit", "-q", "-m", f"partial{len(self.trace)}")
+        if rc == 0:
+            self.pending_ai -= set(pick)
         self.trace.append(("commit_partial", rc, pick))
         return rc
 
@@ -288,6 +296,7 @@ class World:
     def op_stash(self):
         if self._clean():
             self.op_edit()
+        self.stale |= self.pending_ai
         rc, _, _ = self.git("stash")
         self.trace.append(("stash", rc))
         if rc == 0:
@@ -329,11 +338,14 @@ class World:
         r = self.r
         kind = r.pick(["checkout_path", "restore", "checkout_force", "stash_drop", "clean", "rm", "mv", "reset_hard"])
         files = self.tracked()
+        hooked = False
         if kind in ("checkout_path", "restore", "rm", "mv") and not files:
             return None
         if kind == "checkout_path":
             p = r.pick(files)
-            self.git(*r.pick([["checkout", "--", p], ["checkout", "HEAD", "--", p], ["checkout", p]]))
+            form = r.pick([["checkout", "--", p], ["checkout", "HEAD", "--", p], ["checkout", p]])
+            hooked = "--" in form          # the pathspec form with `--` is handled by the checkout hook
+            self.git(*form)
         elif kind == "restore":
             p = r.pick(files)
             self.git(*r.pick([["restore", p], ["restore", "--staged", "--worktree", p], ["restore", "--source=HEAD", p]]))
@@ -353,8 +365,12 @@ class World:
             self.git("mv", "--", p, p + ".moved")
         else:
             self.git("reset", "--hard", "HEAD")
+            hooked = True
+        if kind != "stash_drop" and not hooked:
+            # content discarded by a command git-ai does not handle: the working log keeps its claims (known class)
+            self.stale |= self.pending_ai
         self.tainted = True
-        self.trace.append((kind,))
+        self.trace.append((kind, "hooked" if hooked else "unhooked"))
         return 0
 
     # ------------------------------------------------------------ observation
